@@ -149,7 +149,14 @@ func (h *harness) open(create bool) bool {
 		}
 	})
 	if res != "" || err != nil {
-		h.fail("C04/reopen-failed", "", "opening the database after a clean close failed: %v %v", res, err)
+		// (diagnostics: where the file ends, and what its last bytes are)
+		diag := ""
+		if data, e := os.ReadFile(h.file); e == nil {
+			n := len(data)
+			tail := data[max(0, n-48):]
+			diag = fmt.Sprintf(" [file size %d = %d chunks + %d; last bytes %q]", n, n/131072, n%131072, tail)
+		}
+		h.fail("C04/reopen-failed", "", "opening the database after a clean close failed: %v %v%s", res, err, diag)
 		return false
 	}
 	h.db = db
